@@ -72,3 +72,29 @@ func gr_Triple(p *RistrettoPoint, a *scalar.Scalar, A *RistrettoPoint, b *scalar
 
 //verif:contract for=(*curve.RistrettoPoint).IsIdentity group=gapi
 func gr_IsIdentity(p *RistrettoPoint) bool { return RIsIdentity(Rid(p)) }
+
+func RFromUniform(b []byte) verif.BV { return verif.UFBV("ristretto_one_way_map", 256, verif.BVLE(b)) }
+
+//verif:contract for=(*curve.RistrettoPoint).SetUniformBytes group=gapi
+func gr_SetUniformBytes(p *RistrettoPoint, in []byte) (*RistrettoPoint, error) {
+	if len(in) != RistrettoUniformSize {
+		return nil, errNotValidYCoordinate // (some error; the real one is an unexported fmt.Errorf)
+	}
+	verif.Havoc(p)
+	SetRid(p, RFromUniform(in))
+	return p, nil
+}
+
+func RMsmStep(acc, s, p verif.BV) verif.BV { return verif.UFBV("ristretto_msm_step", 256, acc, s, p) }
+
+//verif:contract for=(*curve.RistrettoPoint).MultiscalarMulVartime group=gapi
+func gr_Msm(p *RistrettoPoint, scalars []*scalar.Scalar, points []*RistrettoPoint) *RistrettoPoint {
+	verif.Requires(len(scalars) == len(points), "MultiscalarMulVartime: equal lengths (documented panic otherwise)")
+	acc := verif.BVHex("0", 256)
+	for i := range scalars {
+		acc = RMsmStep(acc, scalarVal(scalars[i]), Rid(points[i]))
+	}
+	verif.Havoc(p)
+	SetRid(p, acc)
+	return p
+}
